@@ -1,6 +1,7 @@
 (* C02 - lemmas and proofs. *)
 Require Import Verif.Common.Base Verif.Common.Json Verif.Common.JsonFacts.
 Require Import Verif.Model.C02 Verif.Spec.C02.
+From Coq Require Import DecimalString DecimalNat.
 Local Open Scope string_scope.
 
 (* ---------- part 1: order, count, no overlap ---------- *)
@@ -1138,4 +1139,404 @@ Proof.
   intros x Hx. unfold seq_run, seq_run_cfg in Hx. eapply loop_wf; [| |exact Hx].
   - exact I.
   - rewrite map_snd_combine by (rewrite map_length; exact Hl). exact Hwf.
+Qed.
+
+(* ---------- destination keys of syntactically simple placeholders are distinct ---------- *)
+
+Lemma digits_no_char c d :
+  forallb (fun k => negb (Ascii.eqb k c)) ["0"; "1"; "2"; "3"; "4"; "5"; "6"; "7"; "8"; "9"]%char = true ->
+  has_char c (NilEmpty.string_of_uint d) = false.
+Proof.
+  intros H. cbn [forallb] in H. repeat (apply andb_true_iff in H as [? H]).
+  induction d; cbn [NilEmpty.string_of_uint has_char]; try reflexivity;
+    rewrite IHd, orb_false_r; apply negb_true_iff; assumption.
+Qed.
+
+Lemma dec_no_char c j :
+  forallb (fun k => negb (Ascii.eqb k c)) ["0"; "1"; "2"; "3"; "4"; "5"; "6"; "7"; "8"; "9"]%char = true ->
+  has_char c (dec j) = false.
+Proof. apply digits_no_char. Qed.
+
+Lemma dec_inj j j' : dec j = dec j' -> j = j'.
+Proof.
+  unfold dec. intros H.
+  assert (E : Some (Nat.to_uint j) = Some (Nat.to_uint j')) by (rewrite <- !NilEmpty.usu, H; reflexivity).
+  inversion E as [E']. rewrite <- (Unsigned.of_to j), <- (Unsigned.of_to j'), E'. reflexivity.
+Qed.
+
+(* a, a' free of c; the tails are empty or start with c *)
+Definition starts_or_empty (c : ascii) (t : string) : Prop :=
+  t = "" \/ exists t', t = String c t'.
+
+Lemma split_at_char c : forall a a' t t',
+  has_char c a = false -> has_char c a' = false ->
+  starts_or_empty c t -> starts_or_empty c t' ->
+  a ++ t = a' ++ t' -> a = a' /\ t = t'.
+Proof.
+  induction a as [|x a IH]; intros a' t t' Ha Ha' Ht Ht' E.
+  - destruct a' as [|y a']; [split; [reflexivity|exact E]|].
+    cbn [append] in E. cbn [has_char] in Ha'. apply orb_false_iff in Ha' as [Hy _].
+    destruct Ht as [->|(t0 & ->)]; [discriminate|]. inversion E; subst. rewrite Ascii.eqb_refl in Hy. discriminate.
+  - cbn [has_char] in Ha. apply orb_false_iff in Ha as [Hx Ha].
+    destruct a' as [|y a'].
+    + cbn [append] in E. destruct Ht' as [->|(t0 & ->)]; [discriminate|]. inversion E; subst.
+      rewrite Ascii.eqb_refl in Hx. discriminate.
+    + cbn [append] in E. inversion E; subst. cbn [has_char] in Ha'. apply orb_false_iff in Ha' as [_ Ha'].
+      destruct (IH a' t t' Ha Ha' Ht Ht' H1) as [-> ->]. split; reflexivity.
+Qed.
+
+Lemma join_tail_shape p : starts_or_empty "."%char (match p with [] => "" | _ => "." ++ join "." p end).
+Proof. destruct p; [left; reflexivity|right; eexists; reflexivity]. Qed.
+
+Lemma join_cons x r : join "." (x :: r) = x ++ match r with [] => "" | _ => "." ++ join "." r end.
+Proof.
+  cbn [join]. destruct r; [|reflexivity].
+  induction x as [|c x IH]; [reflexivity|]. cbn [append]. rewrite <- IH. reflexivity.
+Qed.
+
+Lemma join_inj : forall p p',
+  forallb seg_simple p = true -> forallb seg_simple p' = true -> p <> [] -> p' <> [] ->
+  join "." p = join "." p' -> p = p'.
+Proof.
+  induction p as [|x r IH]; intros p' Hp Hp' Hn Hn' E; [contradiction Hn; reflexivity|].
+  destruct p' as [|x' r']; [contradiction Hn'; reflexivity|].
+  rewrite !join_cons in E. cbn [forallb] in Hp, Hp'.
+  apply andb_true_iff in Hp as [Hx Hr]. apply andb_true_iff in Hp' as [Hx' Hr'].
+  unfold seg_simple in Hx, Hx'. apply andb_true_iff in Hx as [Hx _]. apply andb_true_iff in Hx' as [Hx' _].
+  apply negb_true_iff in Hx. apply negb_true_iff in Hx'.
+  destruct (split_at_char "."%char _ _ _ _ Hx Hx' (join_tail_shape r) (join_tail_shape r') E) as [-> Et].
+  f_equal. destruct r as [|y r]; destruct r' as [|y' r']; try reflexivity; try discriminate.
+  apply IH; try assumption; try discriminate. cbn [append] in Et. congruence.
+Qed.
+
+Lemma dest_key_inj j p j' p' :
+  path_simple p = true -> path_simple p' = true -> dest_key j p = dest_key j' p' -> j = j' /\ p = p'.
+Proof.
+  unfold path_simple. intros Hp Hp' E. apply andb_true_iff in Hp as [Hn Hp]. apply andb_true_iff in Hp' as [Hn' Hp'].
+  unfold dest_key in E. cbn [append] in E. inversion E as [E'].
+  destruct (split_at_char "_"%char (dec j) (dec j') (String "_" (join "." p)) (String "_" (join "." p'))) as [Ed Et].
+  - apply dec_no_char. reflexivity.
+  - apply dec_no_char. reflexivity.
+  - right. eexists. reflexivity.
+  - right. eexists. reflexivity.
+  - exact E'.
+  - split; [apply dec_inj; exact Ed|]. inversion Et as [Ej].
+    apply join_inj; try assumption; intros ->; discriminate.
+Qed.
+
+Lemma holes_simple_distinct ts : holes_simple ts = true -> dests_distinct ts.
+Proof.
+  unfold holes_simple. rewrite forallb_forall. intros H j p j' p' Ha Hb E.
+  apply dest_key_inj; [apply (H (j, p) Ha)|apply (H (j', p') Hb)|exact E].
+Qed.
+
+Lemma has_char_join c : forall p, forallb (fun s => negb (has_char c s)) p = true -> Ascii.eqb "."%char c = false ->
+  has_char c (join "." p) = false.
+Proof.
+  induction p as [|x r IH]; intros Hp Hc; [reflexivity|].
+  rewrite join_cons. cbn [forallb] in Hp. apply andb_true_iff in Hp as [Hx Hr]. apply negb_true_iff in Hx.
+  rewrite has_char_app, Hx. cbn [orb]. destruct r as [|y r]; [reflexivity|].
+  cbn [append has_char]. rewrite Hc. cbn [orb]. apply IH; assumption.
+Qed.
+
+Lemma dest_key_no_brace j p : path_simple p = true -> no_brace (dest_key j p) = true.
+Proof.
+  unfold path_simple. intros Hp. apply andb_true_iff in Hp as [_ Hp].
+  assert (Hl : forallb (fun s => negb (has_char lbrace s)) p = true /\ forallb (fun s => negb (has_char rbrace s)) p = true).
+  { rewrite !forallb_forall in *. split; intros s Hs; specialize (Hp s Hs); unfold seg_simple, no_brace in Hp;
+      apply andb_true_iff in Hp as [_ Hp]; apply andb_true_iff in Hp as [A B]; assumption. }
+  destruct Hl as [Hl Hr]. unfold no_brace, dest_key.
+  assert (G : forall c, forallb (fun k => negb (Ascii.eqb k c)) ["0"; "1"; "2"; "3"; "4"; "5"; "6"; "7"; "8"; "9"]%char = true ->
+                        forallb (fun s => negb (has_char c s)) p = true -> Ascii.eqb "."%char c = false ->
+                        has_char c "Resp" = false -> Ascii.eqb "_"%char c = false ->
+                        has_char c ("Resp" ++ dec j ++ "_" ++ join "." p) = false).
+  { intros c Hd Hs Hdot HR Hu. rewrite !has_char_app, HR, (dec_no_char c j Hd). cbn [orb append has_char].
+    rewrite Hu. cbn [orb]. apply has_char_join; assumption. }
+  rewrite (G lbrace), (G rbrace); try reflexivity; assumption.
+Qed.
+
+Lemma holes_simple_clean ts : holes_simple ts = true -> dests_clean_b ts = true.
+Proof.
+  unfold holes_simple, dests_clean_b. rewrite !forallb_forall. intros H [j p] Hin. cbn [fst snd].
+  apply dest_key_no_brace. apply (H (j, p) Hin).
+Qed.
+
+Lemma model_propagation_syntactic ts outs ps0 : holes_simple ts = true ->
+  forall i path t s,
+    In (i, path) (call_paths (fst (seq_run ts outs ps0))) -> nth_error ts i = Some t ->
+    tmpl_clean outs ps0 i t = true -> fill outs ps0 i t = Some s -> path = s.
+Proof.
+  intros H. apply model_propagation_spec; [apply holes_simple_distinct|apply holes_simple_clean]; exact H.
+Qed.
+
+(* ---------- the exact path, the shallower-object quirk included ---------- *)
+
+(* the lookup with a missing (or non-object) intermediate segment: the last key is looked up
+   in the object reached so far *)
+Lemma lookup_src_quirk : forall pre d m k rest,
+  get_path (JObj d) pre = Some (JObj m) -> rest <> [] ->
+  (forall m', lookup k m <> Some (JObj m')) ->
+  lookup_src d (pre ++ k :: rest) = lookup (last rest k) m.
+Proof.
+  induction pre as [|a pre IH]; intros d m k rest Hg Hr Hk.
+  - cbn in Hg. inversion Hg; subst m. cbn [app lookup_src].
+    destruct rest as [|r0 rest']; [contradiction Hr; reflexivity|].
+    destruct (lookup k d) as [x|] eqn:E; [|reflexivity].
+    destruct x; try reflexivity. exfalso. eapply Hk. reflexivity.
+  - cbn [get_path] in Hg. destruct (lookup a d) as [x|] eqn:Ea; [|discriminate].
+    assert (Hx : exists d', x = JObj d').
+    { destruct pre; cbn [get_path] in Hg; [inversion Hg; eauto|destruct x; try discriminate; eauto]. }
+    destruct Hx as (d' & ->).
+    cbn [app lookup_src]. destruct (pre ++ k :: rest)%list eqn:El; [destruct pre; discriminate|].
+    rewrite <- El. rewrite Ea. apply IH; assumption.
+Qed.
+
+(* when every intermediate segment exists and is an object the lookup is the plain one *)
+Lemma lookup_src_plain : forall pre d m k,
+  get_path (JObj d) pre = Some (JObj m) -> lookup_src d (pre ++ [k]) = lookup k m.
+Proof.
+  induction pre as [|a pre IH]; intros d m k Hg.
+  - cbn in Hg. inversion Hg; subst. reflexivity.
+  - cbn [get_path] in Hg. destruct (lookup a d) as [x|] eqn:Ea; [|discriminate].
+    assert (Hx : exists d', x = JObj d').
+    { destruct pre; cbn [get_path] in Hg; [inversion Hg; eauto|destruct x; try discriminate; eauto]. }
+    destruct Hx as (d' & ->).
+    cbn [app lookup_src]. destruct (pre ++ [k])%list eqn:El; [destruct pre; discriminate|].
+    rewrite <- El. rewrite Ea. apply IH. exact Hg.
+Qed.
+
+Lemma fold_upd_none i parts : forall tab ps d,
+  (forall r, In r tab -> r_dest r = d -> val_of parts (r_idx r) (r_src r) = None) ->
+  lookup d (fold_left (upd i parts) tab ps) = lookup d ps.
+Proof.
+  induction tab as [|r tab IH]; intros ps d Hn; [reflexivity|].
+  cbn [fold_left]. rewrite IH by (intros r' Hr'; apply Hn; right; exact Hr').
+  unfold upd. destruct (i <=? r_idx r)%nat; [reflexivity|].
+  destruct (val_of parts (r_idx r) (r_src r)) as [v|] eqn:Ev; [|reflexivity].
+  destruct (str_eqb (r_dest r) d) eqn:E.
+  - apply str_eqb_eq in E. rewrite (Hn r (or_introl eq_refl) E) in Ev. discriminate.
+  - apply str_eqb_neq in E. apply lookup_set_neq. congruence.
+Qed.
+
+Lemma val_of_app_none parts x j p : val_of (parts ++ [x]) j p = None -> val_of parts j p = None.
+Proof.
+  intros H. destruct (val_of parts j p) as [v|] eqn:E; [|reflexivity].
+  rewrite (val_of_app parts x j p v E) in H. discriminate.
+Qed.
+
+Lemma val_of_lt parts j p v : val_of parts j p = Some v -> (j < List.length parts)%nat.
+Proof.
+  unfold val_of. destruct (nth_error parts j) eqn:E; [|discriminate]. intros _.
+  apply nth_error_Some. congruence.
+Qed.
+
+Section Exact.
+  Variables (ts : list tmpl) (outs : list outcome) (ps0 : params).
+  Let H := all_holes ts.
+  Hypothesis Hinj : dests_distinct ts.
+  Hypothesis Hclean : dests_clean_b ts = true.
+
+  (* a placeholder that cannot be resolved yet keeps what the endpoint parameters say *)
+  Definition PN (parts : list (option resp)) (ps : params) : Prop :=
+    forall j p, In (j, p) H -> val_of parts j p = None ->
+                lookup (dest_key j p) ps = lookup (dest_key j p) ps0.
+
+  Lemma hole_val_val_of pre outsr i j p :
+    outs = (map OResp pre ++ outsr)%list -> List.length pre = i ->
+    hole_val outs i j p = val_of (map Some pre) j p.
+  Proof.
+    intros Ho Hl. unfold hole_val, val_of. destruct (j <? i)%nat eqn:Lt.
+    - apply Nat.ltb_lt in Lt. rewrite Ho, nth_error_app1 by (rewrite map_length; lia).
+      rewrite !nth_error_map. destruct (nth_error pre j); reflexivity.
+    - apply Nat.ltb_ge in Lt. rewrite nth_error_map.
+      destruct (nth_error pre j) eqn:E; [|reflexivity].
+      exfalso. assert (j < List.length pre)%nat by (apply nth_error_Some; congruence). lia.
+  Qed.
+
+  Lemma step_PN pre i t ps x : In t ts -> PN (map Some pre) ps ->
+    PN (map Some pre ++ [x]) (fold_left (upd i (map Some pre)) (table_of t) ps).
+  Proof.
+    intros Ht Hpn j p Hjp Hv. apply val_of_app_none in Hv.
+    rewrite fold_upd_none; [apply Hpn; assumption|].
+    intros r Hr Hd. apply table_of_in in Hr as (j' & p' & Hh & ->). cbn in Hd |- *.
+    destruct (Hinj j' p' j p (hole_in_all ts t j' p' Ht Hh) Hjp Hd) as [-> ->]. exact Hv.
+  Qed.
+
+  Lemma head_path_q pre outsr i t ps :
+    outs = (map OResp pre ++ outsr)%list -> List.length pre = i -> In t ts ->
+    PK ts ps0 (map Some pre) ps -> PU ts ps0 ps -> PN (map Some pre) ps ->
+    tmpl_clean_q outs ps0 i t = true ->
+    generate_path (render t) (fold_left (upd i (map Some pre)) (table_of t) ps) =
+    cat (map (seg_text_q outs ps0 i) t).
+  Proof.
+    intros Ho Hl Ht Hpk Hpu Hpn Hc.
+    set (parts := map Some pre) in *. set (ps' := fold_left (upd i parts) (table_of t) ps).
+    unfold tmpl_clean_q in Hc. apply andb_true_iff in Hc as [Hsegs Hps0].
+    rewrite forallb_forall in Hsegs. unfold params_clean in Hps0. rewrite forallb_forall in Hps0.
+    assert (Hlen : List.length parts = i) by (unfold parts; rewrite map_length; exact Hl).
+    assert (Vhole : forall j p, In (Hole j p) t ->
+              lookup (dest_key j p) ps' =
+              match hole_val outs i j p with Some v => Some v | None => lookup (dest_key j p) ps0 end).
+    { intros j p Hin. rewrite (hole_val_val_of pre outsr i j p Ho Hl). fold parts.
+      pose proof (hole_in_all ts t j p Ht Hin) as Hjp.
+      destruct (val_of parts j p) as [v|] eqn:Ev.
+      - apply fold_upd_set.
+        + intros r Hr Hd. apply table_of_in in Hr as (j' & p' & Hh' & ->). cbn in Hd |- *.
+          destruct (Hinj j' p' j p (hole_in_all ts t j' p' Ht Hh') Hjp Hd) as [-> ->].
+          split; [|exact Ev]. apply val_of_lt in Ev. lia.
+        + right. eexists. split; [apply in_table_of; exact Hin|reflexivity].
+      - unfold ps'. rewrite fold_upd_none; [apply Hpn; assumption|].
+        intros r Hr Hd. apply table_of_in in Hr as (j' & p' & Hh' & ->). cbn in Hd |- *.
+        destruct (Hinj j' p' j p (hole_in_all ts t j' p' Ht Hh') Hjp Hd) as [-> ->]. exact Ev. }
+    assert (Vparam : forall k, In (PHole k) t -> lookup k ps' = lookup k ps0).
+    { intros k Hin. specialize (Hsegs _ Hin). cbn in Hsegs. apply andb_true_iff in Hsegs as [_ Hr].
+      apply negb_true_iff in Hr.
+      assert (Hnd : forall j p, k <> dest_key j p).
+      { intros j p ->. rewrite starts_resp_dest in Hr. discriminate. }
+      unfold ps'. rewrite fold_upd_other.
+      - apply Hpu. intros j p _. apply Hnd.
+      - intros r Hr'. apply table_of_in in Hr' as (j & p & _ & ->). cbn. apply Hnd. }
+    rewrite render_text, generate_path_chunks.
+    - unfold text. rewrite !map_map. f_equal. apply map_ext_in. intros sg Hin.
+      destruct sg as [s0|j p|k]; cbn [seg_chunk chunk_final render_chunk seg_text_q].
+      + reflexivity.
+      + rewrite (Vhole j p Hin). destruct (hole_val outs i j p); [reflexivity|].
+        destruct (lookup (dest_key j p) ps0); reflexivity.
+      + rewrite (Vparam k Hin). destruct (lookup k ps0); reflexivity.
+    - rewrite forallb_forall. intros c Hc. apply in_map_iff in Hc as (sg & <- & Hin).
+      specialize (Hsegs _ Hin). destruct sg as [s0|j p|k]; cbn [seg_clean_q seg_chunk chunk_wf] in *.
+      + exact Hsegs.
+      + apply andb_true_iff in Hsegs as [A _]. exact A.
+      + apply andb_true_iff in Hsegs as [A _]. exact A.
+    - intros k v Hin.
+      assert (Hcase : (In (k, v) ps0) \/ exists j p, In (j, p) H /\ k = dest_key j p /\ val_of parts j p = Some v).
+      { unfold ps' in Hin. apply fold_upd_in in Hin as [Hin|(r & Hr & Hk & Hv)].
+        - apply Hpk. exact Hin.
+        - right. apply table_of_in in Hr as (j & p & Hh & ->). cbn in *. exists j, p.
+          split; [eapply hole_in_all; eauto|]. split; assumption. }
+      destruct Hcase as [Hin0|(j & p & Hjp & -> & Hv)].
+      + specialize (Hps0 _ Hin0). cbn in Hps0. apply andb_true_iff in Hps0 as [A B]. split; [exact A|intros _; exact B].
+      + split; [apply (dest_no_brace ts Hclean); exact Hjp|]. intros Hc.
+        apply in_map_iff in Hc as (sg & Hsg & Hin'). destruct sg as [s0|j' p'|k']; unfold seg_chunk in Hsg; try discriminate.
+        * assert (Hd : dest_key j' p' = dest_key j p) by congruence.
+          destruct (Hinj j' p' j p (hole_in_all ts t j' p' Ht Hin') Hjp Hd) as [-> ->].
+          specialize (Hsegs _ Hin'). cbn [seg_clean_q] in Hsegs. apply andb_true_iff in Hsegs as [_ B].
+          rewrite (hole_val_val_of pre outsr i j p Ho Hl) in B. fold parts in B. rewrite Hv in B. exact B.
+        * assert (Hd : k' = dest_key j p) by congruence. subst k'. specialize (Hsegs _ Hin'). cbn [seg_clean_q] in Hsegs.
+          apply andb_true_iff in Hsegs as [_ B]. rewrite starts_resp_dest in B. discriminate.
+  Qed.
+
+  (* every call of the loop is the head step of some state that satisfies the invariants *)
+  Lemma loop_calls_inv : forall tsr outsr tsp pre i ps reg a,
+    ts = (tsp ++ tsr)%list -> outs = (map OResp pre ++ outsr)%list ->
+    List.length tsp = i -> List.length pre = i ->
+    reg_ok H (map Some pre) reg -> PK ts ps0 (map Some pre) ps -> PU ts ps0 ps -> PN (map Some pre) ps ->
+    forall i' path,
+      In (i', path) (call_paths (fst (seq_loop false (combine (map bcfg_of tsr) outsr) i (map Some pre) ps reg a))) ->
+      exists pre' outsr' ps' t',
+        outs = (map OResp pre' ++ outsr')%list /\ List.length pre' = i' /\
+        nth_error ts i' = Some t' /\ In t' ts /\
+        PK ts ps0 (map Some pre') ps' /\ PU ts ps0 ps' /\ PN (map Some pre') ps' /\
+        path = generate_path (render t') (fold_left (upd i' (map Some pre')) (table_of t') ps').
+  Proof.
+    induction tsr as [|t0 tsr IH]; intros outsr tsp pre i ps reg a Hts Houts Hlt Hlp Hreg Hpk Hpu Hpn i' path Hin.
+    - cbn in Hin. contradiction.
+    - destruct outsr as [|o outsr]; [cbn in Hin; contradiction|].
+      cbn [map combine seq_loop] in Hin.
+      assert (Ht0 : In t0 ts) by (rewrite Hts; apply in_or_app; right; left; reflexivity).
+      assert (Hnth0 : nth_error ts i = Some t0).
+      { rewrite Hts, nth_error_app2 by lia. replace (i - List.length tsp) with 0 by lia. reflexivity. }
+      destruct (fold_apply_upd H i (map Some pre) Hinj (table_of t0) ps reg (table_entry_ok ts t0 Ht0) Hreg)
+        as (reg1 & Efold & Hreg1).
+      assert (Eps : (if (i =? 0)%nat then (ps, reg) else fold_left (apply_repl i (map Some pre)) (b_tab (bcfg_of t0)) (ps, reg))
+                    = (fold_left (upd i (map Some pre)) (table_of t0) ps, if (i =? 0)%nat then reg else reg1)).
+      { destruct (i =? 0)%nat eqn:E0.
+        - apply Nat.eqb_eq in E0. rewrite E0. rewrite upd_zero. reflexivity.
+        - cbn [bcfg_of b_tab]. exact Efold. }
+      rewrite Eps in Hin. clear Eps.
+      set (ps' := fold_left (upd i (map Some pre)) (table_of t0) ps) in *.
+      set (reg' := if (i =? 0)%nat then reg else reg1) in *.
+      assert (Hreg' : reg_ok H (map Some pre) reg') by (unfold reg'; destruct (i =? 0)%nat; assumption).
+      assert (Hhead : forall i' path, In (i', path) [(i, generate_path (b_pat (bcfg_of t0)) ps')] ->
+                exists pre' outsr' ps'' t',
+                  outs = (map OResp pre' ++ outsr')%list /\ List.length pre' = i' /\
+                  nth_error ts i' = Some t' /\ In t' ts /\
+                  PK ts ps0 (map Some pre') ps'' /\ PU ts ps0 ps'' /\ PN (map Some pre') ps'' /\
+                  path = generate_path (render t') (fold_left (upd i' (map Some pre')) (table_of t') ps'')).
+      { intros i2 path2 [Heq|[]]. inversion Heq; subst i2 path2.
+        exists pre, (o :: outsr), ps, t0. repeat split; try assumption. }
+      destruct o as [r|e|].
+      + destruct (complete r) eqn:Cr.
+        * destruct (seq_loop false (combine (map bcfg_of tsr) outsr) (S i) (map Some pre ++ [Some r]) ps' reg'
+                             (acc_merge a (MP r))) as [tr res] eqn:El.
+          cbn [fst] in Hin. unfold call_paths in Hin. rewrite flat_map_app in Hin.
+          apply in_app_or in Hin as [Hin|Hin].
+          -- cbn in Hin. apply Hhead. exact Hin.
+          -- assert (Emap : (map Some pre ++ [Some r])%list = map Some (pre ++ [r])) by (rewrite map_app; reflexivity).
+             rewrite Emap in El.
+             refine (IH outsr (tsp ++ [t0])%list (pre ++ [r])%list (S i) ps' reg' (acc_merge a (MP r)) _ _ _ _ _ _ _ _ i' path _).
+             ++ rewrite Hts, <- app_assoc. reflexivity.
+             ++ rewrite Houts, map_app, <- app_assoc. reflexivity.
+             ++ rewrite app_length. cbn. lia.
+             ++ rewrite app_length. cbn. lia.
+             ++ rewrite <- Emap. apply reg_ok_app. exact Hreg'.
+             ++ rewrite <- Emap. apply step_PK; assumption.
+             ++ apply step_PU; assumption.
+             ++ rewrite <- Emap. apply step_PN; assumption.
+             ++ rewrite El. exact Hin.
+        * cbn in Hin. apply Hhead. exact Hin.
+      + destruct (i =? 0)%nat; cbn in Hin; apply Hhead; exact Hin.
+      + destruct (i =? 0)%nat; cbn in Hin; apply Hhead; exact Hin.
+  Qed.
+End Exact.
+
+Lemma model_path_exact ts outs ps0 :
+  dests_distinct ts -> dests_clean_b ts = true ->
+  forall i path t,
+    In (i, path) (call_paths (fst (seq_run ts outs ps0))) -> nth_error ts i = Some t ->
+    tmpl_clean_q outs ps0 i t = true ->
+    path = cat (map (seg_text_q outs ps0 i) t).
+Proof.
+  intros Hinj Hclean i path t Hin Hnth Hc. unfold seq_run, seq_run_cfg in Hin.
+  assert (L : exists pre' outsr' ps' t',
+             outs = (map OResp pre' ++ outsr')%list /\ List.length pre' = i /\
+             nth_error ts i = Some t' /\ In t' ts /\
+             PK ts ps0 (map Some pre') ps' /\ PU ts ps0 ps' /\ PN ts ps0 (map Some pre') ps' /\
+             path = generate_path (render t') (fold_left (upd i (map Some pre')) (table_of t') ps')).
+  { apply (loop_calls_inv ts outs ps0 Hinj ts outs [] [] 0 ps0 []
+             (acc_init (List.length (combine (map bcfg_of ts) outs))) eq_refl eq_refl eq_refl eq_refl).
+    - intros d f Hl. discriminate.
+    - intros k v Hk. left; exact Hk.
+    - intros k _. reflexivity.
+    - intros j p _ _. reflexivity.
+    - exact Hin. }
+  destruct L as (pre' & outsr' & ps' & t' & Ho & Hl & Hn & Ht & Hpk & Hpu & Hpn & ->).
+  rewrite Hnth in Hn. inversion Hn; subst t'.
+  eapply head_path_q; eauto.
+Qed.
+
+(* the quirk, end to end *)
+Lemma model_missing_intermediate_quirk ts outs ps0 :
+  dests_distinct ts -> dests_clean_b ts = true ->
+  forall i path t j r pre k rest m,
+    In (i, path) (call_paths (fst (seq_run ts outs ps0))) -> nth_error ts i = Some t ->
+    tmpl_clean_q outs ps0 i t = true ->
+    In (Hole j (pre ++ k :: rest)) t -> (j < i)%nat -> nth_error outs j = Some (OResp r) ->
+    get_path (JObj (data_or_empty r)) pre = Some (JObj m) ->
+    rest <> [] -> (forall m', lookup k m <> Some (JObj m')) ->
+    path = cat (map (seg_text_q outs ps0 i) t) /\
+    seg_text_q outs ps0 i (Hole j (pre ++ k :: rest)) =
+      match lookup (last rest k) m with
+      | Some v => param_of v
+      | None => match lookup (dest_key j (pre ++ k :: rest)) ps0 with
+                | Some v => v
+                | None => ph (dest_key j (pre ++ k :: rest))
+                end
+      end.
+Proof.
+  intros Hinj Hclean i path t j r pre k rest m Hin Hnth Hc Hh Hlt Hr Hg Hrest Hk.
+  split; [eapply model_path_exact; eauto|].
+  cbn [seg_text_q]. unfold hole_val. apply Nat.ltb_lt in Hlt. rewrite Hlt, Hr.
+  rewrite (lookup_src_quirk pre (data_or_empty r) m k rest Hg Hrest Hk).
+  destruct (lookup (last rest k) m); reflexivity.
 Qed.
